@@ -429,28 +429,59 @@ fn run_fit(c: &mut Case, model: Model, x: &Mat, xp: &Mat, y: &[f64], cfg: &Cfg, 
         Model::Lasso => "Lasso::fit",
         Model::Enet => "ElasticNet::fit",
     };
+    // call sequence fit → store → restore → use: drawn for a share of the fits
+    let restore: Option<bool> = if c.rng.bool(0.12) { Some(c.rng.bool(0.5)) } else { None };
+    type Again = Option<Result<(Mat, f64, Vec<f64>), String>>;
+    macro_rules! use_model {
+        ($m:expr) => {{
+            let m = $m;
+            let w = from_m(m.coefficients());
+            let again: Again = restore.map(|json| {
+                let m2 = restored(&m, json)?;
+                match guard(|| (from_m(m2.coefficients()), m2.intercept(), m2.predict(&xpm))) {
+                    Ok((w2, b2, Ok(p2))) => Ok((w2, b2, p2)),
+                    Ok((_, _, Err(e))) => Err(format!("predict of the restored model returned Err({})", e)),
+                    Err(p) => Err(format!("the restored model panicked: {}", p.short())),
+                }
+            });
+            (w, m.intercept(), m.predict(&xpm), again)
+        }};
+    }
     smartcore::verif::set_step_budget(BUDGET);
     let r = must_sig(c, what, sg, || match model {
-        Model::Lasso => Lasso::fit(&xm, &yv, LassoParameters { alpha: cfg.alpha, normalize: cfg.normalize, tol: cfg.tol, max_iter }).map(|m| {
-            let w = from_m(m.coefficients());
-            (w, m.intercept(), m.predict(&xpm))
-        }),
-        Model::Enet => ElasticNet::fit(&xm, &yv, ElasticNetParameters { alpha: cfg.alpha, l1_ratio: cfg.rho, normalize: cfg.normalize, tol: cfg.tol, max_iter }).map(|m| {
-            let w = from_m(m.coefficients());
-            (w, m.intercept(), m.predict(&xpm))
-        }),
+        Model::Lasso => Lasso::fit(&xm, &yv, LassoParameters { alpha: cfg.alpha, normalize: cfg.normalize, tol: cfg.tol, max_iter }).map(|m| use_model!(m)),
+        Model::Enet => ElasticNet::fit(&xm, &yv, ElasticNetParameters { alpha: cfg.alpha, l1_ratio: cfg.rho, normalize: cfg.normalize, tol: cfg.tol, max_iter }).map(|m| use_model!(m)),
     });
     smartcore::verif::set_step_budget(u64::MAX);
     let r = r?;
     Some(match r {
         Err(e) => Err(format!("{}", e)),
-        Ok((w, b, pred)) => {
+        Ok((w, b, pred, again)) => {
             let pred = match pred {
                 Ok(p) => p,
                 Err(e) => return Some(Err(format!("predict: {}", e))),
             };
             if !(w.r == x.c && w.c == 1) {
                 return Some(Err(format!("coefficients() has shape {}x{}, expected {}x1", w.r, w.c, x.c)));
+            }
+            if let (Some(json), Some(a)) = (restore, again) {
+                let fmt = if json { "json" } else { "bincode" };
+                let m = model.name();
+                c.bucket(&format!("sequence:fit-store-restore-predict/{}", fmt));
+                match a {
+                    Ok((w2, b2, p2)) => {
+                        let near = |x: f64, y: f64| close(x, y, 8.0 * EPS, x.abs().max(y.abs()));
+                        let same_w = (w2.r, w2.c) == (w.r, w.c) && w2.d.iter().zip(w.d.iter()).all(|(x, y)| near(*x, *y)) && near(b2, b);
+                        if c.check(&format!("{}.restored.coefficients/{}", m, fmt), same_w, sg, || format!("restored coefficients {}x{} {:?} / {:e}, fitted {}x{} {:?} / {:e}", w2.r, w2.c, w2.d, b2, w.r, w.c, w.d, b)) {
+                            let scale = pred.iter().fold(0.0f64, |q, v| q.max(v.abs()));
+                            let same_p = p2.len() == pred.len() && p2.iter().zip(pred.iter()).all(|(x, y)| close(*x, *y, 64.0 * EPS, scale));
+                            c.check(&format!("{}.restored.predict/{}", m, fmt), same_p, sg, || format!("restored model predicts {:?}, fitted model {:?}", p2, pred));
+                        }
+                    }
+                    Err(msg) => {
+                        c.check(&format!("{}.restored.usable/{}", m, fmt), false, sg, || msg.clone());
+                    }
+                }
             }
             Ok(Fit { w: w.d.clone(), b, pred })
         }
